@@ -16,8 +16,10 @@ workers `W i`, POSIX mutex/condvar semantics incl. spurious wake-ups, both wait 
 signals thread `S` (`_signals_thread` → `_handle_sigint`/`_handle_sigtstp` → `_fwd_signal`,
 `_list_slowthreads`, `_cancel_pending_threads`), the environment (`deliver INT|TSTP`, clock `tick`),
 `thd_mutex`, and `t[i].state` with every write under the mutex dsh.c takes for it.
-`Exec (init v g f n b t0) ls s`: `ls` is an execution (any schedule, any arrival times of any number of signals,
-any clock) from the initial state with wait construct `v`, worker form `g` (false = the blind first state write
+`Exec (init v g sw f n b t0) ls s`: `ls` is an execution (any schedule, any arrival times of any number of signals,
+any clock) from the initial state with wait construct `v`, shutdown form `sw` (false = the pinned source: the watchdog touches no protocol object and runs on; true =
+the repair of F07-STALEID: the watchdog takes thd_mutex around each slot, and dsh() cancels and joins it before it
+cancels the signals thread; `watchdog_stopped_first`), worker form `g` (false = the blind first state write
 `a->state = DSH_RCMD` of the pinned source, true = the repaired, guarded one; probed by behaviour on every run of the
 check), fanout `f`, `n` targets, batch flag `b`, clock `t0`.  Every theorem below holds for both `g` unless it names one.
 
@@ -58,9 +60,10 @@ What is proved (for every `v`, `f`, `n`, every schedule and arrival time unless 
       wake-up) can take a step; no thread ever holds threadcount_mutex and thd_mutex together, so there is no
       lock order to violate;
 * `rank_decreases_with_signals`, `steps_bounded_with_signals`
-      termination: every step of a thread of pdsh other than a spurious wake-up decreases `rank`; a spurious
-      wake-up adds at most 2, a delivery at most `2n + 8`, a clock tick nothing; an execution with `k` spurious
-      wake-ups and `d` delivered signals contains at most `25n + 16 + 2k + (2n + 8)d` steps of pdsh's threads.
+      termination: every step of a thread of pdsh other than a spurious wake-up decreases `trank`; a spurious
+      wake-up adds at most 2, a delivery at most `2n + 8`, a clock tick nothing, the watchdog's return from sleep at
+      most `2n`; an execution with `k` spurious wake-ups, `d` delivered signals and `w` watchdog wake-ups contains at
+      most `27n + 19 + 2k + (2n + 8)d + 2n·w` steps of pdsh's threads.
       With `no_deadlock_with_signals`: every run with finitely many spurious wake-ups and signals that is continued
       as long as a thread of pdsh can move ends, and it ends with dsh() returned or exit(1) called;
 * `exit_nonzero_on_abort`  whenever exit() was called its status is 1;
@@ -84,7 +87,7 @@ open PdshVerif.Dsh.Fan (Variant DPC)
 /-! ## abort: batch ^C, second ^C -/
 
 /-- C20 (-b): sigwait of a SIGINT in batch mode leads straight to the abort path -/
-theorem batch_int_enters_abort {v : Variant} {g : Bool} {f n t0 : Nat} {s s' : St} (h : Reach v g f n true t0 s)
+theorem batch_int_enters_abort {v : Variant} {g sw : Bool} {f n t0 : Nat} {s s' : St} (h : Reach v g sw f n true t0 s)
     (hs : step s (.s (.sigwait .int)) = some s') : s'.spc = .abLock := by
   have hb : s.batch = true := (reach_params h).2.2.1
   have hd := step_s hs
@@ -93,7 +96,7 @@ theorem batch_int_enters_abort {v : Variant} {g : Bool} {f n t0 : Nat} {s s' : S
   subst hd; rfl
 
 /-- C20 (-b): in batch mode the signals thread is never in the report-only branch -/
-theorem batch_never_reports {v : Variant} {g : Bool} {f n t0 : Nat} {s : St} (h : Reach v g f n true t0 s) :
+theorem batch_never_reports {v : Variant} {g sw : Bool} {f n t0 : Nat} {s : St} (h : Reach v g sw f n true t0 s) :
     s.spc.reports = false := by
   obtain ⟨ls, he⟩ := h
   have hb : s.batch = true := (exec_params he).2.2.1
@@ -107,7 +110,7 @@ theorem batch_never_reports {v : Variant} {g : Bool} {f n t0 : Nat} {s : St} (h 
     signals thread are: take thd_mutex; forward SIGINT to the next READING slot (in slot order); release
     thd_mutex — at that moment the forwarded hosts are exactly the READING hosts; exit(1).  Every such
     operation decreases `arank ≤ 2n + 3`, until exit. -/
-theorem batch_int_aborts {v : Variant} {g : Bool} {f n t0 : Nat} {b : Bool} {s s' : St} {a : SAct} (h : Reach v g f n b t0 s)
+theorem batch_int_aborts {v : Variant} {g sw : Bool} {f n t0 : Nat} {b : Bool} {s s' : St} {a : SAct} (h : Reach v g sw f n b t0 s)
     (hs : step s (.s a) = some s') :
     (s.spc = .abLock → a = .lockT ∧ s'.spc = .fwding 0 ∧ s'.thd = .s ∧ s'.fwds = s.fwds) ∧
     (∀ k, s.spc = .fwding k →
@@ -159,7 +162,7 @@ theorem double_int_aborts {s s' : St} {v : Nat} (hs : step s (.s (.time v)) = so
   · simp at hd
 
 /-- C20: whenever exit() was called (only the signals thread calls it here) the status is 1, not 0 -/
-theorem exit_nonzero_on_abort {v : Variant} {g : Bool} {f n t0 : Nat} {b : Bool} {s : St} {c : Nat} (h : Reach v g f n b t0 s)
+theorem exit_nonzero_on_abort {v : Variant} {g sw : Bool} {f n t0 : Nat} {b : Bool} {s : St} {c : Nat} (h : Reach v g sw f n b t0 s)
     (hx : s.exited = some c) : c = 1 ∧ c ≠ 0 ∧ s.spc = .exiting := by
   have := (ainv_reach h).ex (by rw [hx]; rfl)
   rw [hx] at this
@@ -171,10 +174,10 @@ theorem exit_nonzero_on_abort {v : Variant} {g : Bool} {f n t0 : Nat} {b : Bool}
 /-- C20 (commutation, general form): a run in which the signals thread never forwards, exits or cancels is,
     with the steps of the signals thread and the deliveries erased, again a run — a signal-free one — and it
     ends in a state with the same observables -/
-theorem erase_commutes {v : Variant} {g : Bool} {f n t0 : Nat} {b : Bool} {ls : List Label} {s : St}
-    (he : Exec (init v g f n b t0) ls s) (hh : ∀ l ∈ ls, l.harmless = true) :
-    Exec (init v g f n b t0) (erase ls) (strip s) ∧ obs (strip s) = obs s ∧ ∀ l ∈ erase ls, l.erased = false := by
-  have := erase_exec (inv_init v g f n b t0) he hh
+theorem erase_commutes {v : Variant} {g sw : Bool} {f n t0 : Nat} {b : Bool} {ls : List Label} {s : St}
+    (he : Exec (init v g sw f n b t0) ls s) (hh : ∀ l ∈ ls, l.harmless = true) :
+    Exec (init v g sw f n b t0) (erase ls) (strip s) ∧ obs (strip s) = obs s ∧ ∀ l ∈ erase ls, l.erased = false := by
+  have := erase_exec (inv_init v g sw f n b t0) he hh
   rw [strip_init] at this
   exact ⟨this, obs_strip s, erase_no_signal ls⟩
 
@@ -182,10 +185,10 @@ theorem erase_commutes {v : Variant} {g : Bool} {f n t0 : Nat} {b : Bool} {ls : 
     one a SIGINT (no second signal): whatever the schedule and the arrival time, the signals thread only
     reports; erasing its steps leaves a signal-free run with the same per-host program counters and
     `t[i].state`, the same threadcount and dispatcher state; exit() is not called -/
-theorem single_int_harmless {v : Variant} {g : Bool} {f n t0 : Nat} {ls : List Label} {s : St} (ht : INTR < t0)
-    (he : Exec (init v g f n false t0) ls s) (h1 : ls.countP Label.isDeliver ≤ 1) (ho : OnlyInt ls) :
+theorem single_int_harmless {v : Variant} {g sw : Bool} {f n t0 : Nat} {ls : List Label} {s : St} (ht : INTR < t0)
+    (he : Exec (init v g sw f n false t0) ls s) (h1 : ls.countP Label.isDeliver ≤ 1) (ho : OnlyInt ls) :
     (∀ l ∈ ls, l.harmless = true) ∧
-    Exec (init v g f n false t0) (erase ls) (strip s) ∧ obs (strip s) = obs s ∧ (∀ l ∈ erase ls, l.erased = false) ∧
+    Exec (init v g sw f n false t0) (erase ls) (strip s) ∧ obs (strip s) = obs s ∧ (∀ l ∈ erase ls, l.erased = false) ∧
     s.exited = none := by
   obtain ⟨hj, hh⟩ := single_int_only_lists ht he h1 ho
   obtain ⟨e1, e2, e3⟩ := erase_commutes he hh
@@ -226,7 +229,7 @@ theorem tstp_window {s s' : St} {v : Nat} (hs : step s (.s (.time v)) = some s')
     RCMD — slots whose host is not yet started or still connecting as far as the worker has recorded
     (`preConnect`) — to CANCELED, and leaves READING / DONE / FAILED hosts exactly as they are; the number it
     prints is the number of slots it changed -/
-theorem tstp_cancels_only_pending {v : Variant} {g : Bool} {f n t0 : Nat} {b : Bool} {s s' : St} (h : Reach v g f n b t0 s)
+theorem tstp_cancels_only_pending {v : Variant} {g sw : Bool} {f n t0 : Nat} {b : Bool} {s s' : St} (h : Reach v g sw f n b t0 s)
     (hs : step s (.s .lock) = some s') :
     s'.ws = s.ws ∧ s'.tc = s.tc ∧ s'.dpc = s.dpc ∧ s'.ncanc = s.ts.countP isPending ∧
     ∀ j, j < n →
@@ -248,8 +251,8 @@ theorem tstp_cancels_only_pending {v : Variant} {g : Bool} {f n t0 : Nat} {b : B
 
 /-- C20: a canceled slot for which no thread exists never gets one: in every continuation, under every
     schedule, no operation of worker `j` — in particular no connect — ever happens, and the slot stays CANCELED -/
-theorem canceled_new_never_started {v : Variant} {g : Bool} {f n t0 : Nat} {b : Bool} {s s' : St} {ls : List Label} {j : Nat}
-    (h : Reach v g f n b t0 s) (hp : pc s j = .idle) (hc : tsAt s j = .canceled) (he : Exec s ls s') :
+theorem canceled_new_never_started {v : Variant} {g sw : Bool} {f n t0 : Nat} {b : Bool} {s s' : St} {ls : List Label} {j : Nat}
+    (h : Reach v g sw f n b t0 s) (hp : pc s j = .idle) (hc : tsAt s j = .canceled) (he : Exec s ls s') :
     (∀ a, Label.w j a ∉ ls) ∧ pc s' j = .idle ∧ tsAt s' j = .canceled := by
   obtain ⟨⟨h1, h2⟩, h3⟩ := canceled_idle_exec (inv_reach h) he hp hc
   exact ⟨h3, h1, h2⟩
@@ -257,8 +260,8 @@ theorem canceled_new_never_started {v : Variant} {g : Bool} {f n t0 : Nat} {b : 
 /-- C20: the dispatcher never creates a thread for a CANCELED slot (the check `t[i].state == DSH_CANCELED` and
     `pthread_create` happen under threadcount_mutex, which `_cancel_pending_threads` also holds), and every
     slot it steps over is CANCELED -/
-theorem dispatcher_skips_canceled {v : Variant} {g : Bool} {f n t0 : Nat} {b : Bool} {s s' : St} {j : Nat}
-    (h : Reach v g f n b t0 s) (hs : step s (.d (.create j)) = some s') :
+theorem dispatcher_skips_canceled {v : Variant} {g sw : Bool} {f n t0 : Nat} {b : Bool} {s s' : St} {j : Nat}
+    (h : Reach v g sw f n b t0 s) (hs : step s (.d (.create j)) = some s') :
     tsAt s j ≠ .canceled ∧ s.own = .d ∧ ∀ k, s.i ≤ k → k < j → tsAt s k = .canceled := by
   have hinv := inv_reach h
   have hd := step_d hs
@@ -275,12 +278,12 @@ theorem dispatcher_skips_canceled {v : Variant} {g : Bool} {f n t0 : Nat} {b : B
     not yet marked itself; the worker then overwrites CANCELED with RCMD and connects.  So the statement
     "no canceled host is ever connected" is false of dsh.c for slots whose thread already exists. -/
 theorem canceled_created_slot_runs :
-    (run (init .whileWait false 1 1 false 10)
+    (run (init .whileWait false false 1 1 false 10)
       [.d .createS, .d .lock, .d (.create 0), .d .unlock,
        .e (.deliver .int), .s (.sigwait .int), .s (.time 10), .s (.time 10), .s .lockT, .s .unlockT,
        .e (.deliver .tstp), .s (.sigwait .tstp), .s (.time 10), .s .lock]).map (fun s => (s.ts, s.ncanc, s.ws))
       = some ([.canceled], 1, [.started]) ∧
-    (run (init .whileWait false 1 1 false 10)
+    (run (init .whileWait false false 1 1 false 10)
       [.d .createS, .d .lock, .d (.create 0), .d .unlock,
        .e (.deliver .int), .s (.sigwait .int), .s (.time 10), .s (.time 10), .s .lockT, .s .unlockT,
        .e (.deliver .tstp), .s (.sigwait .tstp), .s (.time 10), .s .lock, .s .unlock,
@@ -291,12 +294,12 @@ theorem canceled_created_slot_runs :
 /-- the repaired worker on the schedule of the witness: it finds its slot CANCELED under thd_mutex, releases the
     mutex and goes straight to its epilogue (state still CANCELED); a connect is not possible -/
 example :
-    (run (init .whileWait true 1 1 false 10)
+    (run (init .whileWait true false 1 1 false 10)
       [.d .createS, .d .lock, .d (.create 0), .d .unlock,
        .e (.deliver .int), .s (.sigwait .int), .s (.time 10), .s (.time 10), .s .lockT, .s .unlockT,
        .e (.deliver .tstp), .s (.sigwait .tstp), .s (.time 10), .s .lock, .s .unlock,
        .w 0 .lockT, .w 0 .unlockT]).map (fun s => (s.ts, s.ws)) = some ([.canceled], [.torn]) ∧
-    (run (init .whileWait true 1 1 false 10)
+    (run (init .whileWait true false 1 1 false 10)
       [.d .createS, .d .lock, .d (.create 0), .d .unlock,
        .e (.deliver .int), .s (.sigwait .int), .s (.time 10), .s (.time 10), .s .lockT, .s .unlockT,
        .e (.deliver .tstp), .s (.sigwait .tstp), .s (.time 10), .s .lock, .s .unlock,
@@ -305,7 +308,7 @@ example :
 
 /-! ## ^C ^Z with the repaired worker (`g = true`): cancellation is for good -/
 
-theorem reach_g {v : Variant} {g : Bool} {f n t0 : Nat} {b : Bool} {s : St} (h : Reach v g f n b t0 s) : s.g = g := by
+theorem reach_g {v : Variant} {g sw : Bool} {f n t0 : Nat} {b : Bool} {s : St} (h : Reach v g sw f n b t0 s) : s.g = g := by
   obtain ⟨ls, he⟩ := h
   have := exec_g he
   simpa [init] using this
@@ -314,8 +317,8 @@ theorem reach_g {v : Variant} {g : Bool} {f n t0 : Nat} {b : Bool} {s : St} (h :
     yet marked itself* — is never connected: in every continuation, under every schedule, `rcmd_connect` is not
     called for it, it never reaches the read loop, and its state stays DSH_CANCELED (which is what -S and the
     debug summary count).  False of the unrepaired worker: `canceled_created_slot_runs`. -/
-theorem canceled_unmarked_never_connected {v : Variant} {f n t0 : Nat} {b : Bool} {s s' : St} {ls : List Label}
-    {j : Nat} (h : Reach v true f n b t0 s) (hp : pc s j = .idle ∨ pc s j = .started) (hc : tsAt s j = .canceled)
+theorem canceled_unmarked_never_connected {v : Variant} {sw : Bool} {f n t0 : Nat} {b : Bool} {s s' : St} {ls : List Label}
+    {j : Nat} (h : Reach v true sw f n b t0 s) (hp : pc s j = .idle ∨ pc s j = .started) (hc : tsAt s j = .canceled)
     (he : Exec s ls s') :
     Label.w j .connectBegin ∉ ls ∧ tsAt s' j = .canceled ∧ pc s' j ≠ .reading := by
   have hsk : skipsConnect (pc s j) = true := by rcases hp with hp | hp <;> rw [hp] <;> rfl
@@ -325,8 +328,8 @@ theorem canceled_unmarked_never_connected {v : Variant} {f n t0 : Nat} {b : Bool
 
 /-- C20 (repaired worker): no canceled host — canceled before its thread existed, before its thread marked itself,
     or while connecting — ever reaches the read loop: its command output is never relayed -/
-theorem canceled_never_relays {v : Variant} {f n t0 : Nat} {b : Bool} {s s' : St} {ls : List Label} {j : Nat}
-    (h : Reach v true f n b t0 s) (hc : tsAt s j = .canceled) (he : Exec s ls s') : pc s' j ≠ .reading := by
+theorem canceled_never_relays {v : Variant} {sw : Bool} {f n t0 : Nat} {b : Bool} {s s' : St} {ls : List Label} {j : Nat}
+    (h : Reach v true sw f n b t0 s) (hc : tsAt s j = .canceled) (he : Exec s ls s') : pc s' j ≠ .reading := by
   have hinv := inv_reach h
   have hj : j < s.ts.length := by
     apply Nat.lt_of_not_le; intro hge
@@ -337,12 +340,12 @@ theorem canceled_never_relays {v : Variant} {f n t0 : Nat} {b : Bool} {s s' : St
 /-- C20 (repaired worker), `tstp_cancels_only_pending` at full strength: after `_cancel_pending_threads` has run,
     every slot it found NEW is never connected and stays CANCELED, and every slot it left CANCELED (found NEW or
     RCMD) never has its output relayed — whatever happens afterwards -/
-theorem tstp_cancels_for_good {v : Variant} {f n t0 : Nat} {b : Bool} {s s' s'' : St} {ls : List Label} {j : Nat}
-    (h : Reach v true f n b t0 s) (hs : step s (.s .lock) = some s') (he : Exec s' ls s'') (hj : j < n) :
+theorem tstp_cancels_for_good {v : Variant} {sw : Bool} {f n t0 : Nat} {b : Bool} {s s' s'' : St} {ls : List Label} {j : Nat}
+    (h : Reach v true sw f n b t0 s) (hs : step s (.s .lock) = some s') (he : Exec s' ls s'') (hj : j < n) :
     (tsAt s j = .new → Label.w j .connectBegin ∉ ls ∧ tsAt s'' j = .canceled) ∧
     (isPending (tsAt s j) = true → pc s'' j ≠ .reading) := by
   obtain ⟨ls0, he0⟩ := h
-  have h' : Reach v true f n b t0 s' := ⟨ls0 ++ [.s .lock], Exec.snoc he0 hs⟩
+  have h' : Reach v true sw f n b t0 s' := ⟨ls0 ++ [.s .lock], Exec.snoc he0 hs⟩
   have hinv := inv_reach ⟨ls0, he0⟩
   obtain ⟨hws, hts, _⟩ := cancel_effect (step_s hs)
   have hn : s.ts.length = n := (reach_params ⟨ls0, he0⟩).2.2.2.2
@@ -364,8 +367,8 @@ theorem tstp_cancels_for_good {v : Variant} {f n t0 : Nat} {b : Bool} {s s' s'' 
 /-- C20: until dsh() has returned or exit() was called, some thread of pdsh — dispatcher, a worker or the
     signals thread; not the environment, not a spurious wake-up — can take a step: an interrupt arriving at any
     moment never deadlocks pdsh -/
-theorem no_deadlock_with_signals {v : Variant} {g : Bool} {f n t0 : Nat} {b : Bool} {s : St} (hf : 0 < f)
-    (h : Reach v g f n b t0 s) (hnf : ¬ Final s) :
+theorem no_deadlock_with_signals {v : Variant} {g sw : Bool} {f n t0 : Nat} {b : Bool} {s : St} (hf : 0 < f)
+    (h : Reach v g sw f n b t0 s) (hnf : ¬ Final s) :
     ∃ l s', l.spurious = false ∧ l.isEnv = false ∧ step s l = some s' := by
   have hinv := inv_reach h
   have hfs : 0 < s.f := by rw [(reach_params h).2.1]; exact hf
@@ -381,27 +384,50 @@ theorem no_deadlock_with_signals {v : Variant} {g : Bool} {f n t0 : Nat} {b : Bo
     simp only [Label.proper, Bool.and_eq_true, Bool.not_eq_true'] at hp
     exact ⟨l, s', hp.1, hp.2, hs⟩
 
-/-- C20 (termination): a step of a thread of pdsh other than a spurious wake-up decreases the rank; a spurious
-    wake-up adds at most 2, the delivery of a signal at most `2n + 8`, a clock tick nothing -/
-theorem rank_decreases_with_signals {v : Variant} {g : Bool} {f n t0 : Nat} {b : Bool} {s s' : St} {l : Label}
-    (h : Reach v g f n b t0 s) (hs : step s l = some s') :
-    (l.proper = true → rank s' < rank s) ∧ (l.spurious = true → rank s' ≤ rank s + 2) ∧
-    (l.isDeliver = true → rank s' ≤ rank s + (2 * n + 8)) ∧ (l.isTick = true → rank s' = rank s) := by
+/-- C20 (termination): a step of a thread of pdsh other than a spurious wake-up decreases the rank `trank`; a
+    spurious wake-up adds at most 2, the delivery of a signal at most `2n + 8`, a clock tick nothing, the watchdog's
+    return from its sleep (repaired shutdown only) at most `2n` -/
+theorem rank_decreases_with_signals {v : Variant} {g sw : Bool} {f n t0 : Nat} {b : Bool} {s s' : St} {l : Label}
+    (h : Reach v g sw f n b t0 s) (hs : step s l = some s') :
+    (l.proper = true → trank s' < trank s) ∧ (l.spurious = true → trank s' ≤ trank s + 2) ∧
+    (l.isDeliver = true → trank s' ≤ trank s + (2 * n + 8)) ∧ (l.isTick = true → trank s' = trank s) ∧
+    (l.isWdogWake = true → trank s' ≤ trank s + 2 * n) := by
   have := rank_step (inv_reach h) hs
-  have hn : sigCredit s = 2 * n + 8 := by simp [sigCredit, (reach_params h).2.2.2.2]
-  rw [hn] at this; exact this
+  have hl : s.ts.length = n := (reach_params h).2.2.2.2
+  have hn : sigCredit s = 2 * n + 8 := by simp [sigCredit, hl]
+  rw [hn, hl] at this; exact this
 
-/-- C20 (termination): an execution with `k` spurious wake-ups and `d` delivered signals contains at most
-    `25n + 16 + 2k + (2n + 8)d` steps of pdsh's own threads, whatever the schedule, the arrival times, the clock -/
-theorem steps_bounded_with_signals {v : Variant} {g : Bool} {f n t0 : Nat} {b : Bool} {ls : List Label} {s : St}
-    (he : Exec (init v g f n b t0) ls s) :
-    ls.countP Label.proper + rank s ≤
-      25 * n + 16 + 2 * ls.countP Label.spurious + (2 * n + 8) * ls.countP Label.isDeliver :=
+/-- C20 (termination): an execution with `k` spurious wake-ups, `d` delivered signals and `w` returns of the watchdog
+    from its sleep contains at most `27n + 19 + 2k + (2n + 8)d + 2n·w` steps of pdsh's own threads, whatever the
+    schedule, the arrival times, the clock -/
+theorem steps_bounded_with_signals {v : Variant} {g sw : Bool} {f n t0 : Nat} {b : Bool} {ls : List Label} {s : St}
+    (he : Exec (init v g sw f n b t0) ls s) :
+    ls.countP Label.proper + trank s ≤
+      27 * n + 19 + 2 * ls.countP Label.spurious + (2 * n + 8) * ls.countP Label.isDeliver +
+        2 * n * ls.countP Label.isWdogWake :=
   steps_bounded he
+
+/-- C20 with the repaired shutdown (`sw`, the repair of F07-STALEID): dsh() cancels the signals thread only after
+    the watchdog has been cancelled and joined; the watchdog has ended by then and holds nothing; and the
+    watchdog never holds threadcount_mutex.  (With `no_deadlock_with_signals`: the join cannot hang — while dsh()
+    waits for the watchdog the signals thread is still alive and releases thd_mutex, which is why the watchdog is
+    stopped first.) -/
+theorem watchdog_stopped_first {v : Variant} {g : Bool} {f n t0 : Nat} {b : Bool} {s : St}
+    (h : Reach v g true f n b t0 s) (hc : s.spc = .cancelled) :
+    s.gjoin = true ∧ s.gpc = .ended ∧ s.thd ≠ .g ∧ s.own ≠ .g := by
+  have hinv := inv_reach h
+  have hsw : s.sw = true := by
+    obtain ⟨ls, he⟩ := h
+    have := exec_sw he
+    simpa [init] using this
+  have hj := hinv.w.scanc hc hsw
+  have he := (hinv.w.join hj).2
+  refine ⟨hj, he, ?_, hinv.w.ownG⟩
+  intro ht; have := hinv.w.thdG2 ht; rw [he] at this; cases this
 
 /-- C20: no thread of pdsh holds threadcount_mutex and thd_mutex at the same time (hence no thread waits for one
     mutex while holding the other: the lock graph has no edges, let alone a cycle) -/
-theorem no_nested_locks {v : Variant} {g : Bool} {f n t0 : Nat} {b : Bool} {s : St} (h : Reach v g f n b t0 s) :
+theorem no_nested_locks {v : Variant} {g sw : Bool} {f n t0 : Nat} {b : Bool} {s : St} (h : Reach v g sw f n b t0 s) :
     (∀ j, ¬ (s.own = .w j ∧ s.thd = .w j)) ∧ s.thd ≠ .d ∧ (s.spc ≠ .cancelled → ¬ (s.own = .s ∧ s.thd = .s)) :=
   PdshVerif.Dsh.Sig.no_nested_locks (inv_reach h).m
 
@@ -412,28 +438,28 @@ theorem exit_is_end {s : St} (hx : s.exited.isSome = true) (l : Label) : step s 
 /-! ## projection onto the Fan LTS (C03/C04) -/
 
 /-- a run without cancellation is a run of the fan-out LTS of C03/C04 (with stutter steps) -/
-theorem projects_to_fan {v : Variant} {g : Bool} {f n t0 : Nat} {b : Bool} {ls : List Label} {s : St}
-    (he : Exec (init v g f n b t0) ls s) (hl : ∀ l ∈ ls, l ≠ .s .lock) :
+theorem projects_to_fan {v : Variant} {g sw : Bool} {f n t0 : Nat} {b : Bool} {ls : List Label} {s : St}
+    (he : Exec (init v g sw f n b t0) ls s) (hl : ∀ l ∈ ls, l ≠ .s .lock) :
     PdshVerif.Dsh.Fan.Exec (PdshVerif.Dsh.Fan.init v f n) (ls.filterMap projL) (proj s) :=
   (proj_exec he hl).1
 
 /-- C04 carried over: with the `while` wait construct, whatever interrupts arrive (as long as none cancels), never
     more than `fanout` connections are in flight -/
-theorem fanout_respected_without_cancel {g : Bool} {f n t0 : Nat} {b : Bool} {ls : List Label} {s : St}
-    (he : Exec (init .whileWait g f n b t0) ls s) (hl : ∀ l ∈ ls, l ≠ .s .lock) :
+theorem fanout_respected_without_cancel {g sw : Bool} {f n t0 : Nat} {b : Bool} {ls : List Label} {s : St}
+    (he : Exec (init .whileWait g sw f n b t0) ls s) (hl : ∀ l ∈ ls, l ≠ .s .lock) :
     PdshVerif.Dsh.Fan.inflight (proj s) ≤ f :=
   PdshVerif.Props.C04.inflight_le_fanout ⟨_, projects_to_fan he hl⟩
 
 /-- C03 carried over: each target is connected at most once -/
-theorem once_only_without_cancel {v : Variant} {g : Bool} {f n t0 : Nat} {b : Bool} {ls : List Label} {s : St}
-    (he : Exec (init v g f n b t0) ls s) (hl : ∀ l ∈ ls, l ≠ .s .lock) (i : Nat) :
+theorem once_only_without_cancel {v : Variant} {g sw : Bool} {f n t0 : Nat} {b : Bool} {ls : List Label} {s : St}
+    (he : Exec (init v g sw f n b t0) ls s) (hl : ∀ l ∈ ls, l ≠ .s .lock) (i : Nat) :
     (ls.filterMap projL).count (.w i .connectBegin) ≤ 1 :=
   PdshVerif.Props.C03.once_only (projects_to_fan he hl) i
 
 /-! ## non-vacuity: complete runs -/
 
 /-- -b, N = 1: ^C while the command runs: SIGINT is forwarded to host 0 and pdsh exits with status 1 -/
-example : (run (init .whileWait false 1 1 true 10)
+example : (run (init .whileWait false false 1 1 true 10)
     [.d .createS, .d .lock, .d (.create 0), .d .unlock, .d .lock, .d .wait,
      .w 0 .lockT, .w 0 .unlockT, .w 0 .connectBegin, .w 0 (.connectEnd true), .w 0 .lockT, .w 0 .time, .w 0 .unlockT,
      .e (.deliver .int), .s (.sigwait .int), .s .lockT, .s (.fwd 0), .s .unlockT, .s (.exit 1)]).map
@@ -441,7 +467,7 @@ example : (run (init .whileWait false 1 1 true 10)
 
 /-- not -b, N = 2, fanout 1: ^C (listing host 0), ^Z cancels host 1 (no thread yet); host 0 completes, the
     dispatcher breaks out of the loop and dsh() returns without host 1 ever being started -/
-example : (run (init .whileWait false 1 2 false 10)
+example : (run (init .whileWait false false 1 2 false 10)
     ([.d .createS, .d .lock, .d (.create 0), .d .unlock, .d .lock, .d .wait,
       .w 0 .lockT, .w 0 .unlockT, .w 0 .connectBegin, .w 0 (.connectEnd true), .w 0 .lockT, .w 0 .time, .w 0 .unlockT] ++
      [.e (.deliver .int), .s (.sigwait .int), .s (.time 10), .s (.time 10), .s .lockT, .s (.time 10), .s .unlockT,
